@@ -91,6 +91,7 @@ def replay(case, hist, precision, pres, sub=None, fault_fn=None, compare_snapsho
     """Replay one spec history on a fresh real object. Returns (list of disagreement dicts, final result or None, adapter)."""
     c, rows = case['c'], case['rows']
     ad = Adapter(c, precision, pres, sub=sub, partitions_auto=auto)
+    rep = case.get('rep', 1)         # every batch presented rep times: all accumulators and the count scale by rep (they are sums over the traces)
     pos = 0
     bad = []
     last_res = None
@@ -100,7 +101,7 @@ def replay(case, hist, precision, pres, sub=None, fault_fn=None, compare_snapsho
         before = ad.snapshot() if compare_snapshots else None
         try:
             if op == 'update':
-                ad.update(rows[pos:pos + h['k']])
+                ad.update(rows[pos:pos + h['k']] * rep)
                 pos += h['k']
                 if ad.input_modified:
                     bad.append({'step': step, 'clause': f'update leaves the caller\'s {ad.input_modified} array as it was given'})
@@ -138,6 +139,8 @@ def replay(case, hist, precision, pres, sub=None, fault_fn=None, compare_snapsho
         except ValueError as ex:
             bad.append({'step': step, 'clause': 'accumulators are the exact integer sums', 'error': str(ex)[:300]})
             return bad, last_res, ad
+        if rep > 1:
+            h = dict(h, acc=_scaled(h['acc'], rep), n=h['n'] * rep)
         if proj != h['acc']:
             diff = {k: {'spec': h['acc'][k], 'impl': proj[k]} for k in proj if proj[k] != h['acc'][k]}
             bad.append({'step': step, 'clause': f'state after {op} equals the specification state', 'diff': diff,
@@ -149,6 +152,14 @@ def replay(case, hist, precision, pres, sub=None, fault_fn=None, compare_snapsho
                         'after_fault': [case['faults'][x['k'] - 1]['name'] for x in hist[:step + 1] if x['op'] == 'reject']})
             return bad, last_res, ad
     return bad, last_res, ad
+
+
+def _scaled(x, k):
+    if isinstance(x, dict):
+        return {a: _scaled(b, k) for a, b in x.items()}
+    if isinstance(x, list):
+        return [_scaled(b, k) for b in x]
+    return x * k
 
 
 def _tolist(x):
@@ -169,7 +180,7 @@ same_bits = _same
 
 def one_shot(case, precision, pres, sub=None):
     ad = Adapter(case['c'], precision, pres, sub=sub)
-    ad.update(case['rows'])
+    ad.update(case['rows'] * case.get('rep', 1))
     return ad.compute()
 
 
